@@ -611,6 +611,28 @@ impl Scenario for C03 {
             };
             let bytes = w.recs[idx].bytes.clone();
             let parent_known = n.bc.blocks.contains_key(&w.recs[idx].parent);
+            // does the block's ancestry reach genesis through blocks the node holds? (a child of a stored parentless
+            // block has a known parent and is parentless all the same)
+            let connected = {
+                let mut cur = w.recs[idx].parent;
+                let mut ok = true;
+                let mut guard = 0;
+                while cur != [0u8; 32] {
+                    guard += 1;
+                    match (n.bc.blocks.contains_key(&cur), w.by_hash.get(&cur)) {
+                        (true, Some(pi)) if guard < 10_000 => cur = w.recs[*pi].parent,
+                        _ => {
+                            ok = false;
+                            break;
+                        }
+                    }
+                }
+                ok
+            };
+            if parent_known && !connected {
+                r.fault("delivery_on_top_of_a_parentless_block", 1);
+                orphan_seen = true;
+            }
             if !parent_known {
                 r.fault("orphan_delivery", 1);
                 // the recorded orphan-branch finding clears the longest-chain marks *above* the parentless block's
